@@ -57,6 +57,19 @@ def denote {K} [Add K] [Sub K] [Mul K] [Zero K] (cj : K → K) : Term K → List
   | .scale c t, x => smul c (denote cj t x)
   | .conj, x => x.map cj
 
+/-- Change of scalars, entry by entry (used to transport a run of the driver, which computes with
+`CDy`, to `ℂ`: `Lemmas/OpIR.lean: denote_map`). -/
+def Term.map {K L : Type} (f : K → L) : Term K → Term L
+  | .id => .id
+  | .zero n => .zero n
+  | .mulField a => .mulField (a.map f)
+  | .matrix rows => .matrix (rows.map (fun r => r.map f))
+  | .add s t => .add (s.map f) (t.map f)
+  | .sub s t => .sub (s.map f) (t.map f)
+  | .comp s t => .comp (s.map f) (t.map f)
+  | .scale c t => .scale (f c) (t.map f)
+  | .conj => .conj
+
 /-- Parity of a term: `some false` = linear, `some true` = conjugate-linear, `none` = a sum of a
 linear and a conjugate-linear part (neither).  Computed structurally, never by evaluation. -/
 def parity {K} : Term K → Option Bool
